@@ -739,3 +739,57 @@ def constagree(repo):
                     m.rel, branches[kind][0].lineno, "constant_value")
     res.analysed = [m.rel]
     return res
+
+
+def boundmemo(repo):
+    """R-BOUNDMEMO (C16, termination in practical time): a reference to a virtual field makes the bounds pass compute the
+    constraints of *that field's* expression, and only constant results short-circuit.  Without a record of what was
+    already handled, k virtual fields that each mention the previous one twice cost 2^k computations (20 lines: minutes;
+    40 lines: never).  Decided: compute_constraints_of_expression has a memo parameter, tests and extends it before
+    dispatching; every recursive call in expression_bounds.py forwards it (a call that drops it restarts the blow-up
+    below that point); compute_constants supplies a fresh set to its Expression traversal."""
+    res = RuleResult("R-BOUNDMEMO")
+    m = repo.mod("compiler/front_end/expression_bounds.py")
+    f = m.funcs.get("compute_constraints_of_expression")
+    if f is None:
+        raise AnalysisError("expression_bounds.compute_constraints_of_expression not found")
+    params = [a.arg for a in f.node.args.args]
+    res.instances += 1
+    if len(params) < 3:
+        res.add(f"{m.rel}|compute_constraints_of_expression|no-memo", "compute_constraints_of_expression has no memo parameter: the "
+                "constraints of a referenced virtual field are recomputed at every reference (exponential time for `let a1 = a0 + "
+                "a0`, `let a2 = a1 + a1`, ...)", m.rel, f.node.lineno, f.name)
+        res.analysed = [m.rel]
+        return res
+    memo = params[2]
+    body = ast.unparse(f.node)
+    if not (re.search(r"id\(\w+\) in " + memo, body) and re.search(memo + r"\.add\(id\(", body)):
+        res.add(f"{m.rel}|compute_constraints_of_expression|memo-unused", f"the memo `{memo}` is not consulted and extended before the "
+                "dispatch", m.rel, f.node.lineno, f.name)
+    for g in m.funcs.values():
+        for n in walk_no_nested_funcs(g.node):
+            if isinstance(n, ast.Call) and isinstance(n.func, ast.Name) and n.func.id == "compute_constraints_of_expression":
+                res.instances += 1
+                gp = [a.arg for a in g.node.args.args]
+                passed = [ast.unparse(a) for a in n.args[2:]] + [ast.unparse(k.value) for k in n.keywords if k.arg == memo]
+                if not passed or passed[0] not in gp:
+                    res.add(f"{m.rel}|{g.qualname}|drops-memo", f"{g.qualname} recurses into `{ast.unparse(n.args[0])[:50]}` without forwarding "
+                            "the memo: everything below this call is recomputed on every visit", m.rel, n.lineno, g.qualname)
+    cc = m.funcs.get("compute_constants")
+    if cc is None:
+        raise AnalysisError("expression_bounds.compute_constants not found")
+    res.instances += 1
+    ok = False
+    for n in walk_no_nested_funcs(cc.node):
+        if isinstance(n, ast.Call) and (call_name(n) or "").endswith("fast_traverse_ir_top_down") \
+                and any(isinstance(a, ast.Name) and a.id == "compute_constraints_of_expression" for a in n.args):
+            for k in n.keywords:
+                if k.arg == "parameters" and isinstance(k.value, ast.Dict):
+                    for kk, vv in zip(k.value.keys, k.value.values):
+                        if isinstance(kk, ast.Constant) and kk.value == memo and isinstance(vv, ast.Call) and ast.unparse(vv) == "set()":
+                            ok = True
+    if not ok:
+        res.add(f"{m.rel}|compute_constants|no-fresh-memo", f"compute_constants does not hand a fresh `{memo}` set to its Expression traversal",
+                m.rel, cc.node.lineno, cc.name)
+    res.analysed = [m.rel]
+    return res
